@@ -396,6 +396,15 @@ example : refParse (makeErrorResponse 400 [0x3c] ++ [0x61]) = none ∧
           refParse (strBytes "HTTP/1.1 400 Bad Request\ncontent-length: 0\n\n") = none := by
   decide +kernel
 
+/-- **C12 (HTTP/1 declares HTML).** The response the reference reader extracts from `make_error_response` declares
+    `Content-Type: text/html` and `Connection: close`, for every status and page. -/
+theorem h1_declares_html (s : Nat) (body : Bytes) :
+    (expected s body).headers.lookup nCT = some vHtml ∧ (expected s body).headers.lookup nConn = some vClose := by
+  have a1 : (nCT == nServer) = false := by decide
+  have a2 : (nCT == nConn) = false := by decide
+  have a3 : (nConn == nServer) = false := by decide
+  simp [expected, List.lookup, a1, a2, a3]
+
 /-- **C12 (HTTP/2, HTTP/3).** The header list of the error page sent over HTTP/2 declares `text/html`
     and carries the three-digit status. -/
 theorem h2_declares_html (s : Nat) :
